@@ -54,12 +54,32 @@ func c14BuildTree(t *rapid.T, w *world, n int) {
 	}
 }
 
+// drawListFault: a failure kind and, for a List error, the error value: the
+// error kind is drawn about as often as the four malformed-result kinds
+// together so that every flavour is exercised.
+func drawListFault(t *rapid.T) (listFault, listErrFlavour) {
+	fault := rapid.SampledFrom(append([]listFault{lfError, lfError, lfError}, allListFaults...)).Draw(t, "fault")
+	flavour := listErrFlavours[0]
+	if fault == lfError {
+		flavour = rapid.SampledFrom(listErrFlavours).Draw(t, "errorFlavour")
+	}
+	return fault, flavour
+}
+
+func faultLabel(f listFault, fl listErrFlavour) string {
+	if f == lfError {
+		return "listfault_error(" + fl.name + ")"
+	}
+	return "listfault_" + string(f)
+}
+
 func TestC14_ListFaults(t *testing.T) {
 	rapid.Check(t, func(t *rapid.T) {
-		fault := rapid.SampledFrom(allListFaults).Draw(t, "fault")
+		fault, flavour := drawListFault(t)
 		k := rapid.IntRange(1, 5).Draw(t, "k")
 		w := newWorld(t, worldCfg{prop: "C14", rootFilter: -1, gateFirst: true, gatedRelist: true, period: 1500000, perturb: rapid.Bool().Draw(t, "perturb"), seed: rapid.Uint64().Draw(t, "pseed")})
 		defer w.abort()
+		w.api.listErr = flavour
 		ndesc := rapid.IntRange(0, 7).Draw(t, "descendants")
 		treeEarly := rapid.Bool().Draw(t, "treeBeforeFirstList")
 		if treeEarly {
@@ -100,15 +120,15 @@ func TestC14_ListFaults(t *testing.T) {
 				w.fail("WEDGE: list #%d was never issued", k)
 			}
 			req.fail(fault)
-			w.h("list #%d fails with %s", req.k, fault)
+			w.h("list #%d fails with %s", req.k, faultLabel(fault, flavour))
 		}
-		w.waitFor(w.root.Done(), fmt.Sprintf("controller Done() after list #%d failed with %s", k, fault))
+		w.waitFor(w.root.Done(), fmt.Sprintf("controller Done() after list #%d failed with %s", k, faultLabel(fault, flavour)))
 		err := w.root.Error()
 		if err == nil || errors.Is(err, lifecycle.ErrRunning) {
 			w.fail("list #%d failed with %s but Error() reports %v", k, fault, err)
 		}
-		if fault == lfError && !errors.Is(err, errInjected) {
-			w.fail("list #%d failed with an injected error but Error() = %v does not carry the cause", k, err)
+		if fault == lfError && !errors.Is(err, flavour.err) {
+			w.fail("list #%d failed with an injected error (%s) but Error() = %v does not carry the cause", k, flavour.name, err)
 		}
 		if ready := isClosedCh(w.root.Ready()); ready != (k > 1) {
 			w.fail("list #%d failed with %s: Ready() closed = %v, expected %v (only earlier successful lists make the controller ready)", k, fault, ready, k > 1)
@@ -128,9 +148,9 @@ func TestC14_ListFaults(t *testing.T) {
 			w.fail("%d library goroutines left after the fatal list failure:\n%s", c, dump)
 		}
 		w.cancel()
-		statCase("C14", hashString(fmt.Sprintf("list %s k=%d %s", fault, k, strings.Join(w.hist, ";"))), k >= 2 && len(w.nodes) >= 4, func() interface{} {
-			return map[string]interface{}{"mode": "list-fault", "fault": string(fault), "k": k, "nodes": len(w.nodes), "history": append([]string(nil), w.hist...)}
-		}, "listfault_"+string(fault), fmt.Sprintf("k=%d", k))
+		statCase("C14", hashString(fmt.Sprintf("list %s k=%d %s", faultLabel(fault, flavour), k, strings.Join(w.hist, ";"))), k >= 2 && len(w.nodes) >= 4, func() interface{} {
+			return map[string]interface{}{"mode": "list-fault", "fault": faultLabel(fault, flavour), "k": k, "nodes": len(w.nodes), "history": append([]string(nil), w.hist...)}
+		}, faultLabel(fault, flavour), fmt.Sprintf("k=%d", k))
 	})
 }
 
@@ -259,9 +279,10 @@ func TestC14_StalledController(t *testing.T) {
 	rapid.Check(t, func(t *rapid.T) {
 		P := time.Duration(rapid.IntRange(1500, 6000).Draw(t, "periodUs")) * time.Microsecond
 		stallPeriods := rapid.IntRange(2, 8).Draw(t, "stallPeriods")
-		fault := rapid.SampledFrom(allListFaults).Draw(t, "fault")
+		fault, flavour := drawListFault(t)
 		okBefore := rapid.IntRange(1, 4).Draw(t, "listsBefore")
 		a := newFakeAPI()
+		a.listErr = flavour
 		a.put("a", "p", nil)
 		gate := make(chan struct{})
 		entered := make(chan struct{}, 1)
@@ -350,15 +371,15 @@ func TestC14_StalledController(t *testing.T) {
 		}
 		if err := root.Error(); err == nil || errors.Is(err, lifecycle.ErrRunning) {
 			fail("list #%d failed but Error() reports %v", k, err)
-		} else if fault == lfError && !errors.Is(err, errInjected) {
+		} else if fault == lfError && !errors.Is(err, flavour.err) {
 			fail("Error() = %v does not carry the injected cause", err)
 		}
 		cancel()
 		if n, dump := waitNoLibGoroutines(wedgeBoundNow()); n != 0 {
 			fail("%d library goroutines left:\n%s", n, dump)
 		}
-		statCase("C14", hashString(fmt.Sprintf("stalled %v %d %s %d", P, stallPeriods, fault, okBefore)), true, func() interface{} {
-			return map[string]interface{}{"mode": "list fault while the controller is stalled", "period": P.String(), "stalled_periods": stallPeriods, "fault": string(fault), "failing_list": k}
-		}, "stalled_controller", "listfault_"+string(fault), fmt.Sprintf("failed_list_returned_while_stalled=%v", whileStalled))
+		statCase("C14", hashString(fmt.Sprintf("stalled %v %d %s %d", P, stallPeriods, faultLabel(fault, flavour), okBefore)), true, func() interface{} {
+			return map[string]interface{}{"mode": "list fault while the controller is stalled", "period": P.String(), "stalled_periods": stallPeriods, "fault": faultLabel(fault, flavour), "failing_list": k}
+		}, "stalled_controller", faultLabel(fault, flavour), fmt.Sprintf("failed_list_returned_while_stalled=%v", whileStalled))
 	})
 }
